@@ -696,6 +696,62 @@ CONFIG = {
     ),
 }
 
+CONFIG["C13"] = dict(
+    modules=["Mdns.Props.C13"],
+    model_files="Mdns/Model/Sched.lean",
+    nontrivial=_sim_nontrivial,
+    extra_evidence=_sim_extra,
+    rule="histories on real daemon threads under the simulation seams, from VERIF_SEED (harness/src/c13.rs, scen.rs): one "
+         "third on a silent network (browse / browse again / browse_cache / stop / resolve_hostname with time-outs and mixed "
+         "case / stop_resolve_hostname at times around the retransmission marks, horizons up to days; predicted exactly by "
+         "the scheduler model), two thirds with one or two real responder daemons on the same simulated link (register, "
+         "unregister, browse, stop, resolve, shutdown, packet loss/duplication). Non-trivial = at least one packet and one "
+         "client event. Distinct = distinct scripts.",
+    level_text="On the scheduler model (exact on responder-free histories, compared with the real daemon every run): the stop "
+               "contract (SearchStopped once on the right channel, search and queue entries forgotten), no query for a type "
+               "after its stop in ANY later history until it is browsed again (no_query_after_stop, by induction over "
+               "iterations), the time-out contract (SearchTimeout then SearchStopped, late retransmission is a no-op), "
+               "cache-only browses are silent, SearchStarted first - Lean theorems. The monitor ok_C13 evaluates the channel "
+               "protocol (first event, Found before Resolved, SearchStopped once and last, at stop / time-out / shutdown), "
+               "absence of queries after a stop and the cache-only clause on every real history, including those with "
+               "responders that the model does not cover.",
+    level_note="Trusted: Lean kernel; allowed axioms only; hand model tied to the code by differential comparison of whole "
+               "histories; simulation seams. Histories with responders are decided by the monitor only (no model prediction); "
+               "'forgets the records it cached' is checked through a later browse of the same type in the same history, not "
+               "through metrics.",
+    partial=["the no-query theorem is proved for browsed types; for host names only the stop/time-out step contracts are proved",
+             "Found-before-Resolved and shutdown clauses are monitor-only (the cache/resolve part of the daemon is not in the scheduler model)"],
+    assumptions=["event receivers stay alive", "address queries for a host are attributed to the stopped hostname search only when the daemon has no browse in the history"],
+)
+
+CONFIG["C12"] = dict(
+    modules=["Mdns.Props.C12"],
+    model_files="Mdns/Model/Sched.lean",
+    nontrivial=_sim_nontrivial,
+    extra_evidence=_sim_extra,
+    rule="(a) responder-free histories as in C19/C13: the model's requested wake-up is compared with the real daemon's at "
+         "every loop iteration (interface-check interval default / large / zero / changed at run time); (b) `sim2` histories "
+         "with one or two real responder daemons, registrations, unregistrations, browses, hostname resolutions with "
+         "time-outs, verify requests, shutdowns and interface changes, each executed twice on real daemon threads: "
+         "event-driven (a daemon runs only at the wake-up it requested or when input arrives) and polled every 50 ms. "
+         "Non-trivial = at least one packet and one client event. Distinct = distinct scripts.",
+    level_text="Lost wake-ups are decided by comparing two executions of the same history on the real code: any packet or "
+               "event that polling makes happen earlier (or at all) than in the event-driven run is time-driven work the "
+               "daemon had not asked to be woken for. Spinning is decided on the event-driven trace (more than 5 idle "
+               "iterations at one instant that again ask for a wake-up at or before it, or a runaway). On the scheduler "
+               "model: every queued retransmission and resolver deadline has a timer no later than its due time, the "
+               "requested wake-up is the minimum of the timers, passed timers are consumed, and the interface check never "
+               "re-arms at `now` (interval 0 = disabled) - Lean theorems; the model's wake-up equals the real one on every "
+               "iteration of the responder-free histories.",
+    level_note="Trusted: Lean kernel; allowed axioms only; simulation seams (the gate replaces the blocking poll, so the 1 ms "
+               "floor of the real poll time-out is not exercised). The two-scheduler comparison is an oracle on the real "
+               "code, not a theorem; probe steps, announcement repeats, refreshes, expiries and verify deadlines are covered "
+               "by it, not yet by the model.",
+    partial=["wake_sound is proved for the scheduler fragment (retransmissions, resolver deadlines, interface check); probing, "
+             "record refresh/expiry and verify timers are checked by the two-scheduler oracle only"],
+    assumptions=["one `now` per loop iteration", "hash-order dependent tie-breaks may make the two executions diverge; packet content is compared canonically (sorted, without TTLs)"],
+)
+
 # C19 = component level (delay arithmetic, `backoff` ops) + daemon level (scheduler model, `sim` histories)
 _c19_comp = CONFIG["C19"]
 CONFIG["C19"] = dict(
